@@ -13,7 +13,8 @@ import time
 
 import z3
 
-MAP_PY = "/repo/prosemirror/transform/map.py"
+import engine as _engine
+MAP_PY = _engine.REPO + "/prosemirror/transform/map.py"
 F64 = z3.Float64()
 RNE = z3.RNE()
 RTZ = z3.RTZ()
